@@ -10,7 +10,7 @@
      702  nil element in InboundMessage.Registers   (reg.Reg, line 921)
    Site 703 (HWCText.TextStyling nil with Formatting 10/11, line 873) existed before
    the repair of finding F5; the repaired code uses the nil-safe getters. *)
-From RP Require Import Lib.Base Lib.Sexp Lib.Strings Lib.TrimSpace Model.Gfx Model.MsgIn.
+From RP Require Import Lib.Base Lib.Sexp Lib.Strings Lib.TrimSpace Model.Gfx Model.Flatten Model.MsgIn.
 From Coq Require Import String.
 Open Scope string_scope.
 Open Scope list_scope.
@@ -192,9 +192,14 @@ Section Enc.
     do rl <- regs_lines (im_regs m);
     Ok (pre ++ sl ++ rl).
 
-  Fixpoint enc_in (ms : list InboundMessage) : res (list (list Z)) :=
+  Fixpoint enc_in_raw (ms : list InboundMessage) : res (list (list Z)) :=
     match ms with
     | [] => Ok []
-    | m :: r => do a <- enc_in_msg m; do b <- enc_in r; Ok (a ++ b)
+    | m :: r => do a <- enc_in_msg m; do b <- enc_in_raw r; Ok (a ++ b)
     end.
+
+  (* singleLines(returnStrings), the last statement before the debug block: every LF of every
+     returned string becomes a space (repair of finding F8) *)
+  Definition enc_in (ms : list InboundMessage) : res (list (list Z)) :=
+    do ls <- enc_in_raw ms; Ok (one_lines ls).
 End Enc.
